@@ -7,4 +7,16 @@ CHECKS = {
   "note": "floats treated as reals; math.ceil encoded as the least integer above the quotient; numpy.sum of a constant block = value*length; engine's own model of Python semantics. Call sites in transfer / reagent_distribution are covered by other contracts as they are added.",
  },
 }
+CHECKS["C19"] = {
+  "category": "proof",
+  "technique": "contract-based deductive verification: pre/postconditions + exceptional postconditions on the real Python source, VCs from its ast, z3",
+  "text": "For every int n and every well collection (list, 1-D array, 2-D array of symbolic shape) the real get_trough_wells body is proved to return exactly n ids with result[i] == colmajor(wells)[i mod len], to raise ValueError iff n < 0 or no wells, and TypeError for every non-int type-case of n.",
+  "note": "numpy.asarray/flatten('F') and list repetition (xs*k)[i] == xs[i mod len xs] are library axioms; non-int type-cases of n enumerated: float, nan, None, str, numpy integer (bool is an int in Python and not in the universe).",
+}
+CHECKS["C10"] = {
+  "category": "proof",
+  "technique": "contract-based deductive verification: pre/postconditions, exceptional postconditions and a loop invariant on the real Python source; VCs from its ast, z3",
+  "text": "int_to_tip: result is the Tip with value 2^(n-1) for 1<=n<=8, ValueError otherwise, for every int. prepare_aspirate_dispense_parameters: the returned tip field equals tipmask(tip) = sum over the eight tips of 2^(t-1)*[t is a member], for a Tip member, an int, lists of ints / Tip members of ANY length (loop invariant + finite-universe lemma for sum(set())), and mixed lists of length 2-3; every other type-case (0, 9, float, str, None, Tip.Any inside a collection) raises ValueError.",
+  "note": "EVO script commands (evo_aspirate/evo_dispense/evo_wash tip_selection and slot order) are covered by the C13 contracts; the pair clause (both records of a transfer carry the same mask) by C07. sum(set(xs)) is modelled by the finite-universe identity over {1,2,4,..,128} (assumed library contract, side condition proved at the call site). bool tips are outside the universe.",
+}
 NOT_APPLICABLE = {}
